@@ -81,6 +81,20 @@ impl NodeProcessor for ValueInjection {
     }
 }
 
+#[cfg(feature = "verif")]
+pub(crate) fn verif_process_expression(identifier: &str, value: Expression, expression: &mut Expression) {
+    let mut injection = ValueInjection::new(identifier, value);
+    injection.process_expression(expression);
+    std::mem::forget(injection);
+}
+
+#[cfg(feature = "verif")]
+pub(crate) fn verif_process_prefix(identifier: &str, value: Expression, prefix: &mut Prefix) {
+    let mut injection = ValueInjection::new(identifier, value);
+    injection.process_prefix_expression(prefix);
+    std::mem::forget(injection);
+}
+
 pub const INJECT_GLOBAL_VALUE_RULE_NAME: &str = "inject_global_value";
 
 /// A rule to replace global variables with values.
